@@ -27,6 +27,7 @@ type GenCfg struct {
 	InexactAccrual         bool   // accrual amounts that do not divide evenly
 	TieWeights             bool   // sibling accounts with equal amounts
 	SameDayPriceOK         bool   // (never: excluded by C05) two prices for a pair on one day
+	Ancient                bool   // dates before the year 1000
 }
 
 func DefaultGen() GenCfg {
@@ -114,6 +115,9 @@ func gen1(r *simrt.Rand, c GenCfg) *Journal {
 			root, need = need[0], need[1:]
 		}
 		depth := r.Range(1, 3)
+		if root != "Equity" && r.P(0.04) {
+			depth = 0 // a top-level account: "Assets" itself is a legal account name
+		}
 		segs := []string{root}
 		for k := 0; k < depth; k++ {
 			s := segPool[r.Intn(len(segPool)-2)]
@@ -140,6 +144,9 @@ func gen1(r *simrt.Rand, c GenCfg) *Journal {
 		}
 	}
 	g.start = anchors[r.Intn(len(anchors))] + Day(r.Intn(12))
+	if c.Ancient {
+		g.start = D(r.Range(100, 990), 3, 1) + Day(r.Intn(300))
+	}
 	g.span = r.Range(1, c.MaxSpan)
 	if r.P(0.2) {
 		g.span = r.Range(1, 40)
@@ -421,11 +428,17 @@ func genPrices(g *genState, j *Journal, ps []Posting) {
 		}
 		return Q(r.Range(5000, 20000))
 	}
+	var allDays []Day
 	for i := 1; i < len(g.coms); i++ {
 		c := g.coms[i]
 		inv := r.P(0.3)
 		daily := r.P(0.2)
 		days := []Day{first}
+		for k := 0; k < len(allDays) && k < 4; k++ {
+			if r.P(0.5) {
+				days = append(days, allDays[r.Intn(len(allDays))]) // share days with other commodities' quotes
+			}
+		}
 		if g.c.PriceGap && i == len(g.coms)-1 {
 			// first price only some way into the span
 			days = []Day{g.start + Day(r.Range(1, 1+g.span/2))}
@@ -440,16 +453,24 @@ func genPrices(g *genState, j *Journal, ps []Posting) {
 			}
 		}
 		seen := map[Day]bool{}
+		sort.Slice(days, func(a, b int) bool { return days[a] < days[b] })
+		var lastP Q
 		for _, d := range days {
 			if seen[d] {
 				continue
 			}
 			seen[d] = true
-			dir := Dir{Kind: "price", Date: d, Com: c, Price: price(), Target: parent[c], QStyle: r.Intn(3)}
+			p := price()
+			if lastP != 0 && r.P(0.3) {
+				p = lastP // a quote that repeats the known value (a pegged currency, a money-market fund)
+			}
+			lastP = p
+			dir := Dir{Kind: "price", Date: d, Com: c, Price: p, Target: parent[c], QStyle: r.Intn(3)}
 			if inv {
 				dir.Com, dir.Target = parent[c], c
 			}
 			j.Dirs = append(j.Dirs, dir)
+			allDays = append(allDays, d)
 		}
 	}
 }
@@ -553,6 +574,9 @@ func WideLayout(r *simrt.Rand, j *Journal) *Layout {
 	l.Parent = []int{-1}
 	l.Names = []string{"main.knut"}
 	fan := r.Range(8, 14)
+	if r.P(0.15) {
+		fan = r.Range(33, 48) // very wide: limits in the thirties
+	}
 	for f := 1; f <= fan; f++ {
 		l.Parent = append(l.Parent, 0)
 		l.Names = append(l.Names, fmt.Sprintf("w%d/f%d.knut", f, f))
